@@ -71,6 +71,12 @@ def deviations(sched: List[Dict[str, Any]], bound: int, tier: str) -> List[List[
         # waits; a non-blocking one would write a part of the frame)
         singles.append(("cong", i, "R1"))
         singles.append(("cong", i, "L"))
+        # a receiver resets its connection right before this round: the manager finds out while it is writing (a data frame, or -
+        # together with a clock tick - one of its own reports); the others' streams stay whole and gap-free
+        singles.append(("die", i, 2))  # ... right before the manager's 2nd send call of the round (found on the write side)
+    # ... also in the final round, in which only the manager's own timers write
+    for k in (1, 2, 3, 5):
+        singles.append(("die", len(sched), k))
     res = [sched]
     for k in range(1, bound + 1):
         for combo in itertools.combinations(singles, k):
@@ -78,6 +84,10 @@ def deviations(sched: List[Dict[str, Any]], bound: int, tier: str) -> List[List[
                 continue
             if k > 1 and any(c[0] == "cong" for c in combo):
                 continue  # the congested receiver is explored as a single deviation only
+            if k > 1 and any(c[0] == "die" for c in combo):
+                # a dying receiver: alone, or - in the final round - together with the clock tick that makes the manager write its reports
+                if not all(c[0] in ("die", "tick") and c[1] == len(sched) for c in combo):
+                    continue
             s2 = [dict(st) for st in sched] + [{"inj": [0, 0], "order": 0, "tail": True}]
             for kind, i, arg in combo:
                 st = s2[i]
@@ -87,6 +97,8 @@ def deviations(sched: List[Dict[str, Any]], bound: int, tier: str) -> List[List[
                     st["ctl"] = True
                 elif kind == "cong":
                     st["cong"] = st.get("cong", []) + [arg]
+                elif kind == "die":
+                    st["die"] = st.get("die", []) + [arg]
                 else:
                     st["nw"] = st.get("nw", []) + [arg]
             res.append(s2)
@@ -130,7 +142,7 @@ def execute(case) -> Dict[str, Any]:
             if c.stream_problem:
                 problems.append({"kind": "stream", "slot": s, "detail": c.stream_problem})
                 c.stream_problem = None
-            if c.leftover():
+            if c.leftover() and not c.gone:  # (a receiver that has reset its connection may have been cut off in mid-frame)
                 problems.append({"kind": "partial-frame", "slot": s, "leftover": c.leftover()})
             for f in fr:
                 nframes += 1
@@ -185,7 +197,11 @@ def execute(case) -> Dict[str, Any]:
             # builds it (connection order P1, P2, ..., K)
             for slot in st.get("cong", []):
                 w.clients[slot].mgr_side.send_free = 100
+            for k in st.get("die", []):
+                if not w.clients["R2"].gone:
+                    w.kill_plan = (k, [w.clients["R2"]], "rst")
             w.step(order, st.get("nw", []))
+            w.kill_plan = None
             for slot in st.get("cong", []):
                 w.clients[slot].mgr_side.send_free = None
             if not w.alive:
